@@ -68,7 +68,7 @@ func ruleBatchTimer(c *Ctx, r *R) {
 		return
 	}
 	// identify the cells: batch (value sent on batchC), timerC (timer-kind receive arm), timer
-	var batchCell, timerCCell, timerCell *ssa.Alloc
+	var batchCell, timerCCell, timerCell lvar
 	for _, g := range bi.all {
 		for _, op := range chanOpsOf(g) {
 			sel, ok := op.in.(*ssa.Select)
@@ -77,29 +77,29 @@ func ruleBatchTimer(c *Ctx, r *R) {
 			}
 			for i, a := range op.arms {
 				if a.send && fieldOfChan(a.ch) == "batchC" {
-					batchCell = loadCell(sel.States[i].Send)
+					batchCell = loadVar(sel.States[i].Send)
 				}
 				if !a.send && a.kind == "timer" {
-					timerCCell = loadCell(a.ch)
+					timerCCell = loadVar(a.ch)
 				}
 			}
 		}
 	}
-	if batchCell == nil || timerCCell == nil {
+	if !batchCell.ok() || !timerCCell.ok() {
 		r.undecided("stream.BatchFunc|cells", batcher.Pos(), "could not identify the batch / timerC variables")
 		return
 	}
-	for _, st := range storesTo(timerCCell) {
+	for _, st := range storesToVar(timerCCell) {
 		if ld, ok := st.Val.(*ssa.UnOp); ok {
 			if fa, ok := ld.X.(*ssa.FieldAddr); ok && fieldName(fa.X.Type(), fa.Field) == "C" {
-				timerCell = loadCell(fa.X)
+				timerCell = loadVar(fa.X)
 			}
 		}
 	}
 	// the assume "T ⇒ timer != nil" needs: timer is only ever assigned time.NewTimer results
-	if timerCell != nil {
+	if timerCell.ok() {
 		okT := true
-		for _, st := range storesTo(timerCell) {
+		for _, st := range storesToVar(timerCell) {
 			call, ok := st.Val.(*ssa.Call)
 			if !ok || call.Call.StaticCallee() == nil || call.Call.StaticCallee().Name() != "NewTimer" {
 				okT = false
@@ -115,7 +115,7 @@ func ruleBatchTimer(c *Ctx, r *R) {
 			return false
 		}
 		b, ok := call.Call.Value.(*ssa.Builtin)
-		return ok && b.Name() == "len" && loadCell(call.Call.Args[0]) == batchCell
+		return ok && b.Name() == "len" && loadVar(call.Call.Args[0]) == batchCell
 	}
 	pf := &PF{N: 5, InScope: func(f *ssa.Function) bool { return rootFn(f) == root && f != root }}
 	pf.Instr = func(fn *ssa.Function, in ssa.Instruction, q int) (StateSet, bool) {
@@ -124,7 +124,7 @@ func ruleBatchTimer(c *Ctx, r *R) {
 		}
 		switch x := in.(type) {
 		case *ssa.Store:
-			cell := cellOf(x.Addr)
+			cell := lvarOf(x.Addr)
 			if cell == batchCell {
 				if call, ok := x.Val.(*ssa.Call); ok {
 					if b, ok := call.Call.Value.(*ssa.Builtin); ok && b.Name() == "append" {
@@ -165,7 +165,7 @@ func ruleBatchTimer(c *Ctx, r *R) {
 			if sel, ok := ex.Tuple.(*ssa.Select); ok {
 				if k, ok := cf.y.(*ssa.Const); ok && int(k.Int64()) < len(sel.States) {
 					st := sel.States[k.Int64()]
-					if st.Dir == types.RecvOnly && loadCell(st.Chan) == timerCCell {
+					if st.Dir == types.RecvOnly && loadVar(st.Chan) == timerCCell {
 						if q&2 == 0 {
 							return 0, true // a nil channel is never ready
 						}
@@ -192,7 +192,7 @@ func ruleBatchTimer(c *Ctx, r *R) {
 			return 0, false
 		}
 		// timer == nil true edge is infeasible while the timer may be armed
-		if timerCell != nil && loadCell(cf.x) == timerCell && isNilConst(cf.y) && cf.op == token.EQL {
+		if timerCell.ok() && loadVar(cf.x) == timerCell && isNilConst(cf.y) && cf.op == token.EQL {
 			if q&2 != 0 {
 				return 0, true
 			}
@@ -259,7 +259,7 @@ func ruleBatchTimer(c *Ctx, r *R) {
 	nApp := 0
 	instrs(batcher, func(b *ssa.BasicBlock, i int, in ssa.Instruction) {
 		st, ok := in.(*ssa.Store)
-		if !ok || cellOf(st.Addr) != batchCell {
+		if !ok || lvarOf(st.Addr) != batchCell {
 			return
 		}
 		call, ok := st.Val.(*ssa.Call)
@@ -272,7 +272,7 @@ func ruleBatchTimer(c *Ctx, r *R) {
 		nApp++
 		okFull := false
 		for _, later := range b.Instrs[i+1:] {
-			if cl, ok := later.(*ssa.Call); ok && strings.HasSuffix(path(cl.Call.Value), "full") && len(cl.Call.Args) == 1 && loadCell(cl.Call.Args[0]) == batchCell {
+			if cl, ok := later.(*ssa.Call); ok && strings.HasSuffix(path(cl.Call.Value), "full") && len(cl.Call.Args) == 1 && loadVar(cl.Call.Args[0]) == batchCell {
 				// and the block branches on it
 				if iff, ok := b.Instrs[len(b.Instrs)-1].(*ssa.If); ok && iff.Cond == ssa.Value(cl) {
 					okFull = true
